@@ -146,7 +146,7 @@ def tla_intset(xs):
     return "{" + ", ".join(str(x) for x in xs) + "}"
 
 
-BASE = {"Family": '"seq"', "D": 3, "D2": 1, "N0": "{0}", "Pats": "{1}", "Orders": '{"tf"}', "Universe": '{"A", "B"}', "MaxBad": 1, "Defects": "{}"}
+BASE = {"Family": '"seq"', "NTs": "{3}", "D": 3, "D2": 1, "N0": "{0}", "Pats": "{1}", "Orders": '{"tf"}', "Universe": '{"A", "B"}', "MaxBad": 1, "Defects": "{}"}
 
 
 def mc_cfg(ctx, name, mode, over):
@@ -391,6 +391,7 @@ def run(ctx):
     if ctx.quick:
         reach = [("seq", dict(Family='"seq"', D=4)),
                  ("edge", dict(Family='"edge"', D=1, D2=1, N0=n017, Pats="{1, 2, 5}", Orders='{"tf", "ft"}')),
+                 ("tags", dict(Family='"tags"', D=2, N0="{2}", NTs="{3, 4}", Orders='{"tf"}', MaxBad=0)),
                  ("size", dict(Family='"size"', D=5))]
         gen = [("seq", dict(Family='"seq"', D=4), [K_INSTALL], (K_DL1, K_DL2, K_DL3)),
                ("seq5v", dict(Family='"seq"', D=5, MaxBad=0), [K_INSTALL], (K_DL3, K_DL1, K_DL2)),
@@ -399,23 +400,30 @@ def run(ctx):
                ("edge2", dict(Family='"edge"', D=2, N0="{1, 7, 8, 9, 16}", Pats="{1}", Orders='{"tf"}'), [],
                 (K_INSTALL, K_DL1, K_INSTALL, K_DL2, K_INSTALL, K_DL3)),
                ("edge1", dict(Family='"edge"', D=1, D2=1, N0=n017, Pats="{1, 2, 5}", Orders='{"tf", "ft"}'), [K_INSTALL], (K_DL3, K_DL2, K_DL1)),
+               # 3-4 tags, one removed (early / middle / late), the others then used by name
+               ("tags", dict(Family='"tags"', D=2, N0="{2}", NTs="{3, 4}", Orders='{"tf"}', MaxBad=0), [K_INSTALL], (K_DL1, K_DL2, K_DL3)),
+               ("sizetags", dict(Family='"sizetags"', D=2, N0="{2}", NTs="{3, 4}", Orders='{"tf"}', MaxBad=0), [K_SZ1], (K_SZ1W, K_SZ2)),
                ("size", dict(Family='"size"', D=5), [K_SZ1], (K_SZ1W, K_SZ2))]
         nrand = 150
     else:
         reach = [("seq", dict(Family='"seq"', D=5)),
                  ("edge", dict(Family='"edge"', D=2, D2=1, N0=n017, Pats="{1, 2, 3, 4, 5}", Orders='{"tf", "ft"}')),
+                 ("tags", dict(Family='"tags"', D=3, N0="{2, 3}", NTs="{3, 4}", Orders='{"tf", "ft"}', MaxBad=0)),
+                 ("sizetags", dict(Family='"sizetags"', D=3, N0="{2}", NTs="{3, 4}", Orders='{"tf", "ft"}', MaxBad=0)),
                  ("size", dict(Family='"size"', D=6))]
         gen = [("seq", dict(Family='"seq"', D=5), FULL, ()),
                ("seq6v", dict(Family='"seq"', D=6, MaxBad=0), [K_INSTALL], (K_DL3, K_DL1, K_DL2)),
                ("edge2", dict(Family='"edge"', D=2, N0=n017, Pats="{1}", Orders='{"tf"}'), [K_INSTALL, K_DL3], (K_DL1, K_DL2)),
                ("edge1", dict(Family='"edge"', D=1, D2=1, N0=n017, Pats="{1, 2, 3, 4, 5}", Orders='{"tf", "ft"}'), FULL, ()),
                ("edge3", dict(Family='"edge"', D=3, N0="{8}", Pats="{1}", Orders='{"ft"}'), [K_INSTALL], (K_DL2, K_DL3, K_DL1)),
+               ("tags", dict(Family='"tags"', D=3, N0="{2}", NTs="{3, 4}", Orders='{"tf"}', MaxBad=0), [K_INSTALL], (K_DL1, K_DL2, K_DL3)),
+               ("sizetags", dict(Family='"sizetags"', D=3, N0="{2}", NTs="{3, 4}", Orders='{"tf", "ft"}', MaxBad=0), [K_SZ1], (K_SZ1W, K_SZ2)),
                ("size", dict(Family='"size"', D=6), SIZES, ())]
         nrand = 1500
     only = [x for x in os.environ.get("C19_ONLY", "").split(",") if x]   # development aid: run a subset of the stages
     if only:
         reach = [r for r in reach if "reach" in only]
-        gen = [g for g in gen if g[0] in only or (g[0] == "seq")]
+        gen = [g for g in gen if g[0] in only or (g[0] == "seq")]   # "seq" always: its trace feeds the self-test
         ctx.assumptions.append(f"C19_ONLY={','.join(only)}: partial run (development)")
     for name, over in reach:
         mc_reach(ctx, name, over)
